@@ -183,6 +183,9 @@ class Intrinsics:
         if isinstance(v, containers.SymSet):   # absnodes
             from . import absnodes
             return absnodes.set_len(P, v)
+        if type(v).__name__ == 'AbsList':   # abslist
+            from . import abslist
+            return abslist.length(P, v)
         raise Unsupported(f'len of {v!r}')
 
     def _minmax(self, P, args, kwargs, is_min):
@@ -732,6 +735,13 @@ class Intrinsics:
         return recv.index(x)
 
     def m_dict_get(self, P, recv, k, default=None):
+        if type(k).__name__ == 'EnumV' and not isinstance(k.idx, int):
+            # c14y: a symbolic enum member as key: branch over the keys of that enum (as `d[k]` does), else the default
+            for kk, vv in recv.items():
+                if isinstance(kk, tuple) and kk and kk[0] == '#enum' and kk[1] == k.cls.qualname:
+                    if P.branch(as_z3int(k.idx) == kk[2], f'key=={kk[2]}'):
+                        return vv
+            return default
         hk = P.hashable(k)
         return recv.get(hk, default)
 
@@ -991,6 +1001,23 @@ class Intrinsics:
 
     def s_seq_len(self, P, seq):
         return containers.seq_len(P, seq)
+
+    # abslist (C14y): abstract lists
+    def s_alist_len(self, P, v):
+        from . import abslist
+        return abslist.s_len(P, v)
+
+    def s_alist_parts_is(self, P, v, n):
+        from . import abslist
+        return abslist.s_parts_is(P, v, n)
+
+    def s_alist_same(self, P, a, b):
+        from . import abslist
+        return abslist.s_same(P, a, b)
+
+    def s_alist_all(self, P, fn, v):
+        from . import abslist
+        return abslist.s_all(P, fn, v)
 
     # absnodes (C07): total accessors over abstract keys / set-valued maps
     def s_key_attr(self, P, k, attr):
